@@ -307,12 +307,12 @@ func init() {
 			a18 = append(a18, apuEv{K: "w", A: r, V: v})
 		}
 	}
-	a18 = append(a18, apuEv{K: "w", A: 0xff26, V: 0x00}, apuEv{K: "w", A: 0xff26, V: 0x80}, apuEv{K: "t1"}, apuEv{K: "t4096"})
+	a18 = append(a18, apuEv{K: "w", A: 0xff26, V: 0x00}, apuEv{K: "w", A: 0xff26, V: 0x80}, apuEv{K: "t1"}, apuEv{K: "t2048"}, apuEv{K: "t4096"})
 	apuAlphabets["c18"] = a18
 
 	register("C18", "model_checking", func(c *Ctx) {
 		if c.R != nil {
-			c.R.Rule = "(a) every register NR10-NR51 x all 256 values x power state {on, off, off-then-on}, each preceded by a write of the complementary value: all 20 registers, NR52 and three wave-RAM bytes are read back and compared with the reference (last written value OR mask while on; masks while off; writes ignored while off except NR52 and the length registers; wave RAM preserved); (b) every sequence up to the depth bound over {write r<-v for all 20 registers + 3 wave-RAM bytes x 8 values (no trigger bits), NR52<-00, NR52<-80, 1 cycle, 4,096 cycles}, all registers compared after every event and NR52 after every cycle"
+			c.R.Rule = "(a) every register NR10-NR51 x all 256 values x power state {on, off, off-then-on}, each preceded by a write of the complementary value: all 20 registers, NR52 and three wave-RAM bytes are read back and compared with the reference (last written value OR mask while on; masks while off; writes ignored while off except NR52 and the length registers; wave RAM preserved); (b) every sequence up to the depth bound over {write r<-v for all 20 registers + 3 wave-RAM bytes x 8 values (no trigger bits), NR52<-00, NR52<-80, 1 cycle, 2,048 cycles, 4,096 cycles}, all registers compared after every event and NR52 after every cycle"
 			c.R.Assumptions = []string{"trigger bits are excluded from the write values of (b); status bits under triggers are C19's", "NR52's low nibble is predicted by the shared length/status model"}
 		}
 		explore.Product(c.R, "readback-all-values", explore.PartOpt{Bound: "single write per observation", Domain: "20 registers x 256 values x 3 power states"},
@@ -329,9 +329,21 @@ func init() {
 		if c.Thorough() {
 			depth = 4
 		}
-		explore.Product(c.R, "write-power-time-sequences", explore.PartOpt{Bound: fmt.Sprintf("every sequence up to depth %d over %d events", depth, len(a18)), Domain: "from power-on; and from a powered-off start"},
+		explore.Product(c.R, "write-power-time-sequences", explore.PartOpt{Bound: fmt.Sprintf("every sequence up to depth %d over %d events", depth, len(a18)), Domain: "from power-on; from a powered-off start; from the second half of a frame-sequencer period (plain; all length counters at 1; all length counters at 1 and all channels playing)"},
 			func(yield func(apuCase) bool) {
-				for _, pre := range [][]apuEv{nil, {{K: "w", A: 0xff26, V: 0x00}}} {
+				// non-initial start states: powered off; second half of a frame-sequencer period; every length
+				// counter one clock from expiry there; and additionally all four channels playing
+				len1 := []apuEv{{K: "w", A: 0xff11, V: 0x3f}, {K: "w", A: 0xff16, V: 0x3f}, {K: "w", A: 0xff1b, V: 0xff}, {K: "w", A: 0xff20, V: 0x3f}}
+				play := []apuEv{{K: "w", A: 0xff12, V: 0xf0}, {K: "w", A: 0xff17, V: 0xf0}, {K: "w", A: 0xff1a, V: 0x80}, {K: "w", A: 0xff21, V: 0xf0},
+					{K: "w", A: 0xff14, V: 0x80}, {K: "w", A: 0xff19, V: 0x80}, {K: "w", A: 0xff1e, V: 0x80}, {K: "w", A: 0xff23, V: 0x80}}
+				odd := []apuEv{{K: "t2048"}}
+				cat := func(parts ...[]apuEv) (o []apuEv) {
+					for _, p := range parts {
+						o = append(o, p...)
+					}
+					return
+				}
+				for _, pre := range [][]apuEv{nil, {{K: "w", A: 0xff26, V: 0x00}}, odd, cat(len1, odd), cat(len1, play, odd)} {
 					for i := range a18 {
 						if !yield(apuCase{Name: "c18", Pre: pre, First: i, Depth: depth, Alpha: "c18", Full: true}) {
 							return
